@@ -96,6 +96,11 @@ var HangTimeout = 60 * time.Second
 // Exec runs statement text through the real pipeline on the given store.
 // cols, when non-nil, selects the columns to canonicalise (default: the table's own).
 func Exec(st storage.Store, text string, chanSize, bulkSize int, cols []string) *Result {
+	return ExecCtx(context.Background(), st, text, chanSize, bulkSize, cols)
+}
+
+// ExecCtx is Exec under the given context (planning and execution).
+func ExecCtx(ctx context.Context, st storage.Store, text string, chanSize, bulkSize int, cols []string) *Result {
 	done := make(chan *Result, 1)
 	go func() {
 		res := &Result{}
@@ -105,7 +110,6 @@ func Exec(st storage.Store, text string, chanSize, bulkSize int, cols []string) 
 			}
 			done <- res
 		}()
-		ctx := context.Background()
 		p, err := grammar.NewParser(grammar.SemanticBQL())
 		if err != nil {
 			res.Stage, res.Err = "parse", err.Error()
